@@ -1,5 +1,6 @@
 import Driver.H1
 import Driver.H2
+import Driver.H3
 open Drv
 
 partial def loop (h : IO.FS.Stream) (out : IO.FS.Stream) (judge : String → String → String) : IO Unit := do
@@ -11,7 +12,8 @@ partial def loop (h : IO.FS.Stream) (out : IO.FS.Stream) (judge : String → Str
 
 def engines : List (String × (String → String → String)) :=
   [("commitment", cmJudge), ("nextconfig", ncJudge), ("logcache", lcJudge), ("compaction", cpJudge),
-   ("handlers", hJudge), ("handlers-nomon", hJudgeWith []), ("universe", uJudgeWith umonAll)] ++
+   ("handlers", hJudge), ("handlers-nomon", hJudgeWith []), ("universe", uJudgeWith umonAll), ("cluster", cJudgeWith (cmonFor "all"))] ++
+  ["C01", "C02", "C03", "C04", "C05", "C08", "C12", "C17", "C18"].map (fun p => ("cluster-" ++ p, cJudgeWith (cmonFor p))) ++
   ["C02", "C03", "C04", "C05", "C06", "C10", "C11", "C14"].flatMap (fun p =>
     [("handlers-" ++ p, hJudgeWith (amonFor p)), ("universe-" ++ p, uJudgeWith (umonFor p))])
 
